@@ -222,6 +222,13 @@ func c10Reset(c c10Case) {
 		}
 		c10TmpDir = filepath.Join(c10TmpDir, "c10tmp-"+strconv.Itoa(os.Getpid()))
 		os.MkdirAll(c10TmpDir, 0o755)
+		// Unbounded recursion ends in "fatal error: stack overflow" at the runtime's 1 GB limit after ~30 s and 1 GB of
+		// memory per process. The search lowers the limit (256 MiB is >1000 bytes of stack per input byte for the
+		// largest input, out of reach of any bounded recursion over the input); replays and the strict known-finding
+		// tests keep the real limit, so nothing is reported that the crawler's own settings would not do.
+		if !veriflib.Replaying() && os.Getenv("VERIF_STRICT") != "1" && os.Getenv("VERIF_C10_FILE") == "" {
+			debug.SetMaxStack(256 << 20)
+		}
 	})
 	cfg := config.Get()
 	cfg.MaxHops = c.MaxHops
@@ -873,6 +880,12 @@ func propC10(t veriflib.TB, c c10Case) {
 	t.Helper()
 	c = c10Materialise(c)
 	facet := "C10/" + c.Target
+	if veriflib.FindingOpen(c10KeyPDFPageTreeCycle) { // (the only fatal class so far; the scan is not free)
+		if key := c10FatalClass(c); key != "" {
+			veriflib.Excluded(facet, "input of open finding "+key+" (fatal error: excluded before execution)")
+			return
+		}
+	}
 	var r c10Result
 	if c10FuzzMode() {
 		// the native engine has its own per-input deadline (10 s) and saves the input when it fires; the saved
@@ -998,47 +1011,39 @@ func c10StuckFrames(dump string) string {
 // being executed is therefore on disk, in replay-file form, before it runs and is removed when the test ends ------
 
 var (
-	c10JMu    sync.Mutex
-	c10JFiles = map[string]*os.File{}
+	c10JMu   sync.Mutex
+	c10JFile *os.File
 )
 
-func c10JournalPath(facet string) string {
-	dir := os.Getenv("VERIF_FAIL_DIR")
-	if dir == "" {
-		return ""
-	}
-	return filepath.Join(dir, "journal-"+strings.ReplaceAll(facet, "/", "_")+"-"+os.Getenv("VERIF_SHARD")+".json")
-}
-
 func c10JournalBegin(facet string, c c10Case) {
-	p := c10JournalPath(facet)
-	if p == "" || veriflib.Replaying() {
+	dir := os.Getenv("VERIF_FAIL_DIR")
+	if dir == "" || veriflib.Replaying() {
 		return
 	}
 	c10JMu.Lock()
 	defer c10JMu.Unlock()
-	f := c10JFiles[facet]
-	if f == nil {
-		os.MkdirAll(filepath.Dir(p), 0o755)
-		var err error
-		if f, err = os.Create(p); err != nil {
+	if c10JFile == nil {
+		os.MkdirAll(dir, 0o755)
+		f, err := os.Create(filepath.Join(dir, "journal-c10-"+os.Getenv("VERIF_SHARD")+".json"))
+		if err != nil {
 			return
 		}
-		c10JFiles[facet] = f
+		c10JFile = f
 	}
 	b := []byte(veriflib.JSON(veriflib.Failure{Property: "C10", Facet: facet, Case: []byte(veriflib.JSON(c10Slim(c))), Seed: os.Getenv("VERIF_SEED"),
 		Message: "the test process died while executing this case (fatal error outside the reach of recover: see output_tail)"}))
-	f.WriteAt(b, 0)
-	f.Truncate(int64(len(b)))
+	c10JFile.WriteAt(b, 0)
+	c10JFile.Truncate(int64(len(b)))
 }
 
-func c10JournalEnd(facet string) {
+// c10JournalEnd is deferred by every test function: the process is still alive, so nothing is pending.
+func c10JournalEnd(string) {
 	c10JMu.Lock()
 	defer c10JMu.Unlock()
-	if f := c10JFiles[facet]; f != nil {
-		f.Close()
-		os.Remove(f.Name())
-		delete(c10JFiles, facet)
+	if c10JFile != nil {
+		c10JFile.Close()
+		os.Remove(c10JFile.Name())
+		c10JFile = nil
 	}
 }
 
